@@ -254,7 +254,7 @@ def run(ctx):
     ctx.cov["schedules_explored"] = len(scheds)
     rnd = random.Random(ctx.seed)
     scens = runner.sharded_tlc(ctx, "GenScen", C04.CFG.format(profile="c06", shard=0, nshards=1), 16, "GenScen_c06",
-                               timeout=1200, simulate=f"num={4 if q else 40}", depth=30, seed=ctx.seed + 71)
+                               timeout=1200, simulate=f"num={6 if q else 40}", depth=30, seed=ctx.seed + 71)
     scens = C04.dedup(scens)
     k = 4 if q else 8
     pairs = [(sc, rnd.sample(scheds, k)) for sc in scens]
